@@ -6,6 +6,7 @@ package props
 // after every step; each property's check enables its own oracle set.
 
 import (
+	"context"
 	"fmt"
 	"os"
 	"path/filepath"
@@ -56,6 +57,7 @@ type hScenario struct {
 	Pre         [][]string `json:"pre,omitempty"`          // per assigned vBucket (index): kinds of the events the server already holds when the first session opens
 	KeepF1      bool       `json:"keep_f1,omitempty"`      // do not exclude the known finding F1 by construction (units whose oracle is not C01's)
 	File        bool       `json:"file,omitempty"`         // real file metadata backend (whole-state writes) instead of the per-vBucket fake
+	DocBucket   string     `json:"doc_bucket,omitempty"`   // the stored checkpoint documents carry this bucketUuid instead of the streamed bucket's current one (written against an earlier incarnation of the bucket; the library resumes from what is stored all the same)
 	FileAll     bool       `json:"file_all,omitempty"`     // (file backend) the file exists already and lists EVERY vBucket of the bucket (written while this instance was the only member)
 }
 
@@ -212,6 +214,10 @@ func newSession(sc *hScenario, oracles ...string) *session {
 	s.cl = newFakeClient(sc.NumVb)
 	s.cl.endOnClose = sc.EndOnClose
 	s.meta = newFakeMeta()
+	s.meta.docBucket = sc.DocBucket
+	if sc.DocBucket != "" {
+		s.label("stored_documents_carry_another_bucket_uuid")
+	}
 	for v := 0; v < sc.NumVb; v++ {
 		s.srv[uint16(v)] = &srvVb{}
 	}
@@ -1532,7 +1538,7 @@ func (s *session) save(op hOp) {
 	s.meta.mu.Lock()
 	s.meta.block = false
 	if op.Fail {
-		s.meta.next = saveOutcome{err: errInjected, writes: op.N, order: op.Ord}
+		s.meta.next = saveOutcome{err: saveErr(s, op.Gap), writes: op.N, order: op.Ord}
 	} else {
 		s.meta.next = saveOutcome{writes: -1, order: op.Ord}
 	}
@@ -1652,7 +1658,7 @@ func (s *session) saveEnd(op hOp) {
 	call := s.inflight
 	out := saveOutcome{writes: -1, order: op.Ord}
 	if op.Fail {
-		out = saveOutcome{err: errInjected, writes: op.N, order: op.Ord}
+		out = saveOutcome{err: saveErr(s, op.Gap), writes: op.N, order: op.Ord}
 	}
 	// positions settled while the store call was blocked may not be in this dump, but the dump can
 	// never contain more than what was settled when it was taken (= at savebegin)
@@ -1699,7 +1705,7 @@ func (s *session) saveEnd(op hOp) {
 func (s *session) crash(op hOp) {
 	if s.inflight != nil {
 		s.label("crash_mid_save")
-		s.meta.release <- saveOutcome{err: errInjected, writes: op.N, order: op.Ord}
+		s.meta.release <- saveOutcome{err: saveErr(s, op.Gap), writes: op.N, order: op.Ord}
 		<-s.saveDone
 		s.inflight = nil
 		s.drainQueued()
@@ -1917,4 +1923,21 @@ func runHistory(sc *hScenario, excludeF1 bool, oracles ...string) (*hViolation, 
 	}
 	s.finish()
 	return s.viol, s.labels, s.excluded
+}
+
+// saveErr: the ways a metadata store fails a save - it rejects it, or it times it out (the Couchbase backend returns its
+// context's error when checkpoint.timeout passes, gocbcore its own timeout error): nothing may be forgotten either way
+func saveErr(s *session, kind int) error {
+	switch ((kind % 4) + 4) % 4 {
+	case 1:
+		s.label("save_timed_out")
+		return context.DeadlineExceeded
+	case 2:
+		s.label("save_timed_out")
+		return fmt.Errorf("injected store failure: %w", gocbcore.ErrTimeout)
+	case 3:
+		s.label("save_timed_out")
+		return fmt.Errorf("injected store failure: %w", context.DeadlineExceeded)
+	}
+	return errInjected
 }
